@@ -271,7 +271,16 @@ WIRE_EXEMPT = {
 
 def wiring_registers(repo):
     cg = CallGraph(repo, 'TemplateData')
-    reach = cg.reachable([repo.own_method('TemplateData', 'wire_members')])
+    entries = [repo.own_method('TemplateData', 'wire_members')]
+    # methods the walk reaches by name (a table of method names per descriptor class, dispatched with getattr): every string constant
+    # in the class that is the name of one of its methods counts as reached
+    cls = repo.cls('TemplateData')
+    names = set()
+    for nd in ast.walk(cls.node):
+        if isinstance(nd, ast.Constant) and isinstance(nd.value, str) and nd.value in cls.methods:
+            names.add(nd.value)
+    entries += [cls.methods[n] for n in sorted(names)]
+    reach = cg.reachable(entries)
     W = {}
     for fi in reach:
         if fi.cls is None or fi.cls.name != 'TemplateData':
